@@ -250,6 +250,10 @@ Special = group(
     )
 )
 
+MAX_INDENT: Final = 100  # indentation levels, the outermost one included
+MAX_BRACKETS: Final = 200  # open brackets
+MAX_FSTRINGS: Final = 150  # f-strings inside replacement fields of each other
+
 SearchPath = r"([rgpf]+|@\w*)?`([^\n`\\]*(?:\\.[^\n`\\]*)*)`"
 _SEARCH_PATH_START: Final = re.compile(r"([rgpf]+|@\w*)?`")
 PseudoToken = choice(
@@ -567,6 +571,8 @@ def next_statement(
         consistent = alt_column > state.alt_indents[-1]
         state.indents.append(column)
         state.alt_indents.append(alt_column)
+        if len(state.indents) > MAX_INDENT:  # (CPython's limits, so that the same programs are refused)
+            raise IndentationError("too many levels of indentation", ("<tokenize>", state.lnum, 1, state.line))
         yield TokenInfo(
             Token.INDENT, state.line[: state.pos], (state.lnum, 0), (state.lnum, state.pos), state.line
         )
@@ -623,6 +629,8 @@ def next_psuedo_matches(state: TokenizerState) -> TokenInfo | None:
             raw = "r" in token.lower()
             pattern = _fstring_patterns(quote, raw)
             state.add_prog(end, end, pattern=pattern, quote=quote, raw=raw, mode=ModeMiddle(state.parenlev))
+            if sum(isinstance(prog.mode, ModeMiddle) for prog in state.end_progs) >= MAX_FSTRINGS:
+                raise TokenError("too many nested f-strings", spos)
         else:
             pattern = endpats[quote]
             state.add_prog(start, end, pattern=pattern, quote=quote)
@@ -641,6 +649,8 @@ def next_psuedo_matches(state: TokenizerState) -> TokenInfo | None:
     elif match.lastgroup == "Special":
         if token[-1] in "([{":
             state.parenlev += 1
+            if state.parenlev > MAX_BRACKETS:
+                raise TokenError("too many nested parentheses", spos)
         elif token in ")]}":
             if state.in_braces() and state.at_parenlev():
                 state.pop_mode((state.lnum, end))
